@@ -124,3 +124,100 @@ func generateSubs(e *emitter, o vh.Opts, r *vh.Rand) {
 	}
 	_ = r
 }
+
+// Round 6 family "names": roots and origins whose NAMES look like defaults or
+// reserved words -- openconfig, Openconfig, default, the target's own name,
+// another target's name, meta, "*" -- for the data that a Reset / Remove /
+// device delete announces, with single-target subscribers (whole target, the
+// path of that root) and a "*" subscriber open; traffic goes on afterwards.
+func generateNames(e *emitter, o vh.Opts) {
+	names := []string{"openconfig", "Openconfig", "default", "t", "u", "meta", "*"}
+	for _, nm := range names {
+		for form := 0; form < 2; form++ { // 0: the name is the prefix ORIGIN, 1: it is the first path element
+			mk := func(ts, v int64, leafName string) *NotiJ {
+				if form == 0 {
+					return updN(ts, &PathJ{Target: "t", Origin: nm, Elems: elems("a")}, pth(leafName), ival(v))
+				}
+				return updN(ts, pfx("t", nm), pth(leafName), ival(v))
+			}
+			finals := [][]Op{
+				{{K: "reset", Tgt: "t"}},
+				{{K: "remove", Tgt: "t"}},
+				{{K: "reset", Tgt: "t"}, {K: "reset", Tgt: "t"}},
+			}
+			if form == 0 {
+				finals = append(finals, []Op{{K: "upd", N: delN(30, &PathJ{Target: "t", Origin: nm}, pth("*"))}})
+			} else {
+				finals = append(finals, []Op{{K: "upd", N: delN(30, pfx("t"), pth(nm))}})
+			}
+			for _, fin := range finals {
+				c := &Case{Family: "names", Cfg: CfgJ{EventDriven: false}, Targets: []string{"t", "u"}}
+				now := int64(1)
+				add := func(x Op) { x.Now = now; now++; c.Ops = append(c.Ops, x) }
+				add(Op{K: "upd", N: mk(5, 1, "b")})
+				add(Op{K: "upd", N: updN(5, pfx("t", "a"), pth("c"), ival(1))})
+				add(Op{K: "upd", N: updN(5, pfx("t", "zz"), pth("y"), ival(1))})
+				add(Op{K: "upd", N: updN(5, pfx("u", "a"), pth("c"), ival(1))})
+				add(Op{K: "sync", Tgt: "t"})
+				add(Op{K: "updatemeta"})
+				add(Op{K: "subp", Tgt: "t"})
+				add(Op{K: "subp", Tgt: "t", SP: []string{nm}})
+				add(Op{K: "subp", Tgt: "*"})
+				add(Op{K: "upd", N: mk(10, 2, "b")})
+				for _, x := range fin {
+					add(x)
+				}
+				// what is re-delivered afterwards must still reach the subscribers that are open
+				add(Op{K: "upd", N: updN(40, pfx("t", "a"), pth("c"), ival(7))})
+				add(Op{K: "upd", N: mk(41, 8, "b")})
+				add(Op{K: "upd", N: updN(40, pfx("u", "a"), pth("c"), ival(7))})
+				e.add(c)
+			}
+		}
+	}
+}
+
+// Round 6 family "options": the construction options of the cache (server
+// name, future threshold, excluded metadata, event-driven emulation) x the
+// lifecycle: every metadata value after Reset must be what it was right after
+// Add, and the exported leaves must show it.
+func generateOptions(e *emitter, o vh.Opts) {
+	excls := [][]string{nil, {"sync"}, {"targetLeaves", "connectedAddress"}, {"serverName"}}
+	for _, srv := range []string{"", "collector-1"} {
+		for _, thr := range []int64{0, 2} {
+			for _, ex := range excls {
+				for _, ed := range []bool{true, false} {
+					for variant := 0; variant < 3; variant++ {
+						c := &Case{Family: "options", Cfg: CfgJ{Thr: thr, EventDriven: ed, Srv: srv, Excl: ex}, Targets: []string{"t"}}
+						now := int64(1)
+						add := func(x Op) { x.Now = now; now++; c.Ops = append(c.Ops, x) }
+						add(Op{K: "upd", N: updN(5, pfx("t", "a"), pth("b"), ival(1))})
+						add(Op{K: "sync", Tgt: "t"})
+						add(Op{K: "connect", Tgt: "t"})
+						if variant != 1 {
+							add(Op{K: "updatemeta"})
+						}
+						if variant == 2 {
+							add(Op{K: "add", Tgt: "u"})
+							add(Op{K: "subp", Tgt: "t", SP: []string{"meta"}})
+						}
+						add(Op{K: "reset", Tgt: "t"})
+						add(Op{K: "updatemeta"})
+						add(Op{K: "upd", N: updN(6, pfx("t", "a"), pth("b"), ival(2))})
+						add(Op{K: "upd", N: delN(50, pfx("t"), pth("*"))}) // also wipes the exported metadata leaves
+						add(Op{K: "updatemeta"})
+						add(Op{K: "reset", Tgt: "t"})
+						if variant == 2 {
+							add(Op{K: "reset", Tgt: "u"})
+						}
+						add(Op{K: "remove", Tgt: "t"})
+						add(Op{K: "add", Tgt: "t"})
+						add(Op{K: "updatemeta"})
+						add(Op{K: "reset", Tgt: "t"})
+						e.add(c)
+					}
+				}
+			}
+		}
+	}
+}
